@@ -18,9 +18,11 @@ Context {V : Type}.
 Definition C15_no_panic_full : Prop := forall rs : list (request V), exists s : state V, run init_state rs = Ok s.
 
 (* It is false of the faithful model: a panic inside a library call propagates through the handler (nothing recovers
-   it).  Witness on the real code: POST /scenario whose [Model.Parameters] has YearsOfErosion = 0 panics inside the
-   model interpretation (math.RoundFloat; DESIGN.md D14c) -- replayed by the harness on every run and listed in
-   tools/props/C15.known.json. *)
+   it), and the model represents such a panic as an outcome of the parse-level view (the ...LibPanic constructors).
+   The witness on the real code was POST /scenario with YearsOfErosion = 0 (a panic inside the model interpretation,
+   DESIGN.md D14c); it has since been repaired in /repo (2d5fa4a) and the harness, which still replays that request on
+   every run, now sees a 400.  No library panic reachable by a request is known on the current tree; that none exists
+   is exactly what is sampled rather than proved. *)
 Theorem C15_no_panic_full_refuted : ~ C15_no_panic_full.
 Proof.
   intro H. destruct (H [lib_panic_request]) as [s Hs]. simpl in Hs. discriminate.
